@@ -139,13 +139,16 @@ class ProxyProtocolV1(object):
         try:
             packed = socket.inet_pton(addr_family, ip_string.decode('ascii'))
             return socket.inet_ntop(addr_family, packed)
-        except (UnicodeDecodeError, socket.error):
+        except (ValueError, socket.error):
             msg = 'Invalid proxy protocol {0} IP format'.format(which)
             raise AssertionError(msg)
 
     @classmethod
     def __get_pp_port(cls, port_string, which):
         try:
+            if not port_string.isdigit() or \
+                    (len(port_string) > 1 and port_string.startswith(b'0')):
+                raise ValueError(port_string)
             port_num = int(port_string)
         except ValueError:
             msg = 'Invalid proxy protocol {0} port format'.format(which)
@@ -235,6 +238,9 @@ class ProxyProtocolV2(object):
         family = cls.__families.get(data[13] & 0xf0)
         protocol = cls.__protocols.get(data[13] & 0x0f)
         addr_len = struct.unpack('!H', data[14:16])[0]
+        assert command is not None, 'Invalid proxy protocol command'
+        assert command == 'local' or (family is None) == (protocol is None), \
+            'Invalid proxy protocol address family or transport protocol'
         return command, family, protocol, addr_len
 
     @classmethod
